@@ -8,3 +8,6 @@ import Dm.Props.C18
 #print axioms Dm.Props.C18.take_while1_spec
 #print axioms Dm.Props.C18.take_until1_spec
 #print axioms Dm.Props.C18.no_unaccounted_site
+#print axioms Dm.Props.C18.error_positions_in_bounds
+#print axioms Dm.Props.C18.error_all_index_in_bounds
+#print axioms Dm.Props.C18.inferSource_in_bounds
